@@ -1412,6 +1412,18 @@ func buildFromStringProto(src protoreflect.FieldDescriptor, ext protoFieldExtens
 		ListRules: fkRules,
 	}
 
+	if keyFieldOpt != nil && keyFieldOpt.Type == nil && stringItem.Rules != nil && stringItem.Rules.Pattern != nil {
+		// A key with a custom pattern is compiled to a string pattern
+		// constraint next to the bare key annotation.
+		keyField.Format = &schema_j5pb.KeyFormat{
+			Type: &schema_j5pb.KeyFormat_Custom_{
+				Custom: &schema_j5pb.KeyFormat_Custom{
+					Pattern: *stringItem.Rules.Pattern,
+				},
+			},
+		}
+	}
+
 	if keyFieldOpt != nil {
 		if keyFieldOpt.Type != nil {
 			switch keyType := keyFieldOpt.Type.(type) {
